@@ -211,7 +211,9 @@ def rule_progress(report, prog):
         report.check(okk, 'C08-R3', key(r.qname, 'skip loop terminates (finite skip set, offset strictly increases)'), r.loc(), 'skip loop changed')
     # memory readers: every cycle extends the image or raises
     g = prog.func('nfc.tag.tt2.Type2TagMemoryReader._read_from_tag')
-    okk = any(isinstance(l, ast.While) and norm(l.test) == 'index < stop' and any(norm(s) == 'index += 16' for s in l.body) for l in walk_no_nested(g.node))
+    # (canonical loop form: `i = A; while i < B: ...; i += C` and `for i in range(A, B, C)` are both the for form)
+    okk = any(isinstance(l, ast.For) and isinstance(l.iter, ast.Call) and norm(l.iter.func) == 'range' and len(l.iter.args) == 3 and
+              norm(l.iter.args[1]) == 'stop' and try_const(l.iter.args[2]) == 16 for l in walk_no_nested(g.node))
     n += 1
     report.check(okk, 'C08-R3', key(g.qname, 'reads 16 byte per cycle until stop'), g.loc(), 'Type 2 memory read loop changed')
     g = prog.func('nfc.tag.tt1.Type1TagMemoryReader._read_from_tag')
@@ -560,4 +562,4 @@ triage.add('C08', 'C08-R1', key('Type2TagCommandError', 'unguarded in', 'tag.tt2
            'and the reader fetches 16 byte at a time and only calls the tag for an index >= len(cache)',
            [('nfc.tag.tt2.Type2Tag.NDEF._read_capability_data', 'text:tag_memory[15] >> 4'),
             ('nfc.tag.tt2.Type2TagMemoryReader.__getitem__', 'text:key >= len(self)'),
-            ('nfc.tag.tt2.Type2TagMemoryReader._read_from_tag', 'index += 16')])
+            ('nfc.tag.tt2.Type2TagMemoryReader._read_from_tag', 'text:, stop, 16)')])
